@@ -11,10 +11,12 @@ def day_of(d):
     return (d - EPOCH).days
 
 
-def make_market(rng, syms, d0, ndays, late=None, gaps=0.0, missing=0.0):
-    """sym -> [[iso, open, close, adj], ...]; `late`: sym -> first day offset with data"""
+def make_market(rng, syms, d0, ndays, late=None, gaps=0.0, missing=0.0, spikes=None):
+    """sym -> [[iso, open, close, adj], ...]; `late`: sym -> first day offset with data;
+    `spikes`: list that receives the ISO dates of one-bar x3 moves that revert on the next bar"""
     mk = {}
     for s in syms:
+        spike_at = rng.randrange(12, max(13, ndays - 3)) if spikes is not None and rng.random() < 0.5 else None
         p = rng.uniform(5, 200)
         rows = []
         off = (late or {}).get(s, 0)
@@ -33,6 +35,9 @@ def make_market(rng, syms, d0, ndays, late=None, gaps=0.0, missing=0.0):
             if rng.random() < gaps:
                 continue
             row = [d.isoformat(), round(o, 4), round(c, 4), round(c * rng.choice([1.0, 1.0, 0.97]), 4)]
+            if spike_at is not None and i == spike_at:
+                row = [row[0]] + [round(x * 3.0, 4) for x in row[1:]]
+                spikes.append(row[0])
             if rng.random() < missing:
                 row[rng.choice([1, 2, 3])] = None
             rows.append(row)
@@ -128,7 +133,8 @@ def gen_case(rng, family='any'):
         # one asset whose data start a few days into the range (its file may carry empty rows before the listing)
         late = dict(late or {})
         late[rng.choice(syms)] = 10 + rng.randrange(2, max(3, min(nd, 12)))
-    market = make_market(rng, syms, d0 - dtm.timedelta(days=10), nd + 25, late=late, gaps=gaps, missing=missing)
+    spikes = [] if rng.random() < 0.15 else None
+    market = make_market(rng, syms, d0 - dtm.timedelta(days=10), nd + 25, late=late, gaps=gaps, missing=missing, spikes=spikes)
     burn = None
     k = rng.random()
     if k < 0.45:
@@ -144,4 +150,8 @@ def gen_case(rng, family='any'):
                 long_only=lo, param=(rng.choice([0.0, 0.05, 0.3]) if lo else rng.choice([0.5, 1.0, 2.0])),
                 fee=gen_fee(rng), cash=rng.choice([1e5, 1e6, 250000.0]), universe=uni, alpha=alpha, signals=signals,
                 adjust=rng.random() < 0.7, market=market, family=family)
+    if reb != 'buy_and_hold' and rng.random() < 0.08:
+        case['start_us'] = rng.choice([1, 250000, 999999])      # a start carrying microseconds: the session is that of the whole second
+    if spikes:
+        case['spike_days'] = sorted(set(day_of(dtm.date.fromisoformat(x)) for x in spikes))
     return case
